@@ -72,6 +72,34 @@ def values(spec: dict, reps: int) -> List[List[int]]:
     return [[row_value(spec, rep, i) for i in range(n_inst)] for rep in range(reps)]
 
 
+def long_value(spec: dict, rep: int, inst: int) -> int:
+    """Cheap pseudo-random row value for long results: a linear congruential walk reduced modulo the value range."""
+    radix = clean_radix(spec["radix"])
+    mult = abs(int(spec.get("mult", 1))) % 1000003 or 1
+    add = abs(int(spec.get("add", 0)))
+    x = (rep * mult + add + 7919 * inst) % 1000003
+    return (x ^ (x >> 7)) % prod(radix)
+
+
+def long_rows(spec: dict, reps: int):
+    """-> (records[rep][inst][q], values[rep][inst]) for a long result; digit tuples are cached per value."""
+    radix = clean_radix(spec["radix"])
+    n_inst = max(1, int(spec.get("inst", 1)))
+    cache = {}
+    recs, vals = [], []
+    for rep in range(reps):
+        vs = [long_value(spec, rep, i) for i in range(n_inst)]
+        row = []
+        for v in vs:
+            d = cache.get(v)
+            if d is None:
+                d = cache[v] = int_to_digits(v, radix)
+            row.append(d)
+        recs.append(row)
+        vals.append(vs)
+    return recs, vals
+
+
 def expected_str(specs: Sequence[dict], recs: Dict[str, List[List[List[int]]]]) -> List[str]:
     """Lines of str(result): keys sorted, one line per instance, per qubit the digits of all repetitions."""
     lines = []
@@ -87,16 +115,11 @@ def expected_str(specs: Sequence[dict], recs: Dict[str, List[List[List[int]]]]) 
 
 def pack_bits_hex(bits: Sequence[int]) -> str:
     """Hex of the bits packed 8 per byte, first bit = most significant bit of the first byte, zero padded."""
-    bits = [1 if b else 0 for b in bits]
-    while len(bits) % 8:
-        bits.append(0)
-    out = []
-    for i in range(0, len(bits), 8):
-        byte = 0
-        for b in bits[i:i + 8]:
-            byte = (byte << 1) | b
-        out.append(f"{byte:02x}")
-    return "".join(out)
+    text = "".join("1" if b else "0" for b in bits)
+    text += "0" * (-len(text) % 8)
+    if not text:
+        return ""
+    return int(text, 2).to_bytes(len(text) // 8, "big").hex()
 
 
 def flatten(x) -> List[int]:
